@@ -65,6 +65,8 @@ def main():
                         ex.append({"t": op, "l": a, "r": b2})
                 ex.append({"t": "not", "e": a})
             vlib.run_machine(chk, "c03-machine", data["docs"], data["cfgs"], cfgsel, ex)
+    # the tables' algebra (double negation, De Morgan, short circuit, error propagation, associativity) proved with TLAPS
+    vlib.run_tlaps(chk, "LogicProof")
     chk.cov["distinct_nontrivial"] = sum(cells.values())
     chk.notes["table_cells_hit"] = {" ".join(k): v for k, v in sorted(cells.items())}
     chk.notes["rule"] = ("all ordered pairs (A, B) of a pool of sub-expressions (plain matches, absent keys, erroring coercions, invalid "
